@@ -36,9 +36,12 @@ props!(
     ("C11", c11),
     ("C12", c12),
     ("C13", c13),
+    ("C15", c15),
+    ("C16", c16),
     ("C17", c17),
     ("C18", c18),
     ("C19", c19),
+    ("C20", c20),
 );
 
 pub fn finding(sig: impl Into<String>, detail: impl Into<String>, case: Value) -> Finding {
